@@ -1260,4 +1260,132 @@ theorem rangeProve_ne_panic (hA : ArithOK) (cs : Suite) {n : Int} (hn : 1 < n) {
   unfold proofLargeIntervalSpecific
   exact bind_ne_panic (remaining_ne_panic _) fun _ _ _ => proofLargeLoop_ne_panic hA hn hg hh _ _ _ _ _ _ _ _ _
 
+/-! ### challenges: equal hashes, equal inputs or an event -/
+
+theorem os2ip_foldl_inj (b b' : Bytes) (hl : b.length = b'.length) (acc acc' : Nat)
+    (h : b.foldl (fun acc x => acc * 256 + x.toNat) acc
+       = b'.foldl (fun acc x => acc * 256 + x.toNat) acc') : acc = acc' ∧ b = b' := by
+  induction b generalizing b' acc acc' with
+  | nil =>
+    cases b' with
+    | nil => exact ⟨by simpa using h, rfl⟩
+    | cons _ _ => simp at hl
+  | cons a l ih =>
+    cases b' with
+    | nil => simp at hl
+    | cons a' l' =>
+      simp only [List.foldl_cons] at h
+      obtain ⟨h1, rfl⟩ := ih l' (by simpa using hl) _ _ h
+      have ha := UInt8.toNat_lt a
+      have ha' := UInt8.toNat_lt a'
+      have e1 : acc = acc' := by omega
+      have e2 : a.toNat = a'.toNat := by omega
+      exact ⟨e1, by rw [UInt8.toNat_inj.mp e2]⟩
+
+/-- Equal challenges come from equal inputs, or exhibit one of the two CL03 hash events. -/
+theorem hashInts_eq_cases {l l' : List Int} (h : hashInts l = hashInts l') :
+    l = l' ∨ ConcatAmbiguity ∨ ClHashCollision := by
+  unfold hashInts at h
+  have h1 : os2ip (sha256 (l.flatMap decimalBytes)) = os2ip (sha256 (l'.flatMap decimalBytes)) := by
+    exact Int.ofNat.inj h
+  have h2 := (os2ip_foldl_inj _ _ (by rw [sha256_length, sha256_length]) 0 0 h1).2
+  by_cases hb : l.flatMap decimalBytes = l'.flatMap decimalBytes
+  · by_cases hl : l = l'
+    · exact Or.inl hl
+    · exact Or.inr (Or.inl ⟨l, l', hl, hb⟩)
+  · exact Or.inr (Or.inr ⟨_, _, hb, h2⟩)
+
+theorem Rep.unit_eq {n a : Int} {u u' : (ZMod n.toNat)ˣ} (h : Rep n a u) (h' : Rep n a u') : u = u' :=
+  Units.ext (h.symm.trans h')
+
+/-- two units with a non-trivial relation `u^d·v^d' = 1` give a `RepCollision` of their
+representatives -/
+theorem repCollision_of_rel (hA : ArithOK) {n g h : Int} {u v : (ZMod n.toNat)ˣ} (hn : 1 < n)
+    (hg : Rep n g u) (hh : Rep n h v) {d d' : Int} (hd : d ≠ 0 ∨ d' ≠ 0)
+    (hrel : u ^ d * v ^ d' = 1) : RepCollision n [g, h] := by
+  obtain ⟨y1, e1, r1, -⟩ := powMod_rep hA hn hg d
+  obtain ⟨y2, e2, r2, -⟩ := powMod_rep hA hn hh d'
+  refine ⟨[d, d'], rfl, ?_, [y1, y2], rfl, ?_, ?_⟩
+  · rcases hd with hd | hd
+    · exact ⟨d, by simp, hd⟩
+    · exact ⟨d', by simp, hd⟩
+  · intro i hi
+    have : i = 0 ∨ i = 1 := by simp at hi; omega
+    rcases this with rfl | rfl
+    · simpa using e1
+    · simpa using e2
+  · have hr := r1.mul r2
+    rw [hrel] at hr
+    unfold Rep at hr
+    have := (ZMod.intCast_eq_intCast_iff' (y1 * y2) 1 n.toNat).mp (by simpa using hr)
+    rw [natCast_toNat hn] at this
+    simpa using this
+
+/-- With unit bases and unit `E`, `F`: what `verify_same_secret` accepting means. -/
+theorem verifySameSecret_accept (hA : ArithOK) {n : Int} (hn : 1 < n)
+    {g1 h1 g2 h2 E F : Int} {u1 v1 u2 v2 e f : (ZMod n.toNat)ˣ}
+    (hg1 : Rep n g1 u1) (hh1 : Rep n h1 v1) (hg2 : Rep n g2 u2) (hh2 : Rep n h2 v2)
+    (hE : Rep n E e) (hF : Rep n F f) {π : ProofSs} {tq tq' : List Draw}
+    (hv : verifySameSecret E F g1 h1 g2 h2 n π tq = .ok (true, tq')) :
+    ∃ lhs rhs : Int, π.challenge = hashInts [lhs, rhs] ∧
+      Rep n lhs (u1 ^ π.d * v1 ^ π.d1 * e ^ (-π.challenge)) ∧
+      Rep n rhs (u2 ^ π.d * v2 ^ π.d2 * f ^ (-π.challenge)) := by
+  unfold verifySameSecret at hv
+  obtain ⟨iE, hiE, riE, iE0, -⟩ := pw_rep hA hn hE (-π.challenge) tq
+  obtain ⟨iF, hiF, riF, iF0, -⟩ := pw_rep hA hn hF (-π.challenge) tq
+  obtain ⟨a, ha, ra, a0, -⟩ := pw_rep hA hn hg1 π.d tq
+  obtain ⟨b, hb, rb, b0, -⟩ := pw_rep hA hn hh1 π.d1 tq
+  obtain ⟨a2, ha2, ra2, a20, -⟩ := pw_rep hA hn hg2 π.d tq
+  obtain ⟨b2, hb2, rb2, b20, -⟩ := pw_rep hA hn hh2 π.d2 tq
+  rw [bind_of_ok hiE, bind_of_ok hiF, bind_of_ok ha, bind_of_ok hb, bind_of_ok ha2,
+    bind_of_ok hb2] at hv
+  obtain ⟨hc, -⟩ := pure_ok_iff.mp hv
+  have hc' : π.challenge = hashInts [tmod (a * b * iE) n, tmod (a2 * b2 * iF) n] := by
+    simpa using hc
+  exact ⟨_, _, hc', (tmod_rep hn ((ra.mul rb).mul riE) (mul_nonneg (mul_nonneg a0 b0) iE0)).1,
+    (tmod_rep hn ((ra2.mul rb2).mul riF) (mul_nonneg (mul_nonneg a20 b20) iF0)).1⟩
+
+theorem grp_cancel {G} [CommGroup G] {u v e : G} {d d' d1 d1' c : ℤ}
+    (h : u ^ d * v ^ d1 * e ^ c = u ^ d' * v ^ d1' * e ^ c) : u ^ (d - d') * v ^ (d1 - d1') = 1 := by
+  have h2 : u ^ d * v ^ d1 = u ^ d' * v ^ d1' := mul_right_cancel h
+  rw [zpow_sub, zpow_sub]
+  calc u ^ d * (u ^ d')⁻¹ * (v ^ d1 * (v ^ d1')⁻¹)
+      = (u ^ d * v ^ d1) * (u ^ d' * v ^ d1')⁻¹ := by rw [mul_inv]; ac_rfl
+    _ = 1 := by rw [h2, mul_inv_cancel]
+
+/-- **Altered responses.** Two proofs accepted by `verify_same_secret` for the same statement and
+with the same challenge have the same responses, or exhibit a non-trivial relation between the
+bases (`RepCollision`), or one of the two hash events. -/
+theorem same_secret_binding (hA : ArithOK) {n : Int} (hn : 1 < n)
+    {g1 h1 g2 h2 E F : Int} {u1 v1 u2 v2 e f : (ZMod n.toNat)ˣ}
+    (hg1 : Rep n g1 u1) (hh1 : Rep n h1 v1) (hg2 : Rep n g2 u2) (hh2 : Rep n h2 v2)
+    (hE : Rep n E e) (hF : Rep n F f) {π π' : ProofSs} {tq tq' tq'' : List Draw}
+    (hv : verifySameSecret E F g1 h1 g2 h2 n π tq = .ok (true, tq'))
+    (hv' : verifySameSecret E F g1 h1 g2 h2 n π' tq = .ok (true, tq''))
+    (hc : π'.challenge = π.challenge) :
+    π' = π ∨ RepCollision n [g1, h1] ∨ RepCollision n [g2, h2] ∨ ConcatAmbiguity ∨
+      ClHashCollision := by
+  obtain ⟨l, r, c1, rl, rr⟩ := verifySameSecret_accept hA hn hg1 hh1 hg2 hh2 hE hF hv
+  obtain ⟨l', r', c2, rl', rr'⟩ := verifySameSecret_accept hA hn hg1 hh1 hg2 hh2 hE hF hv'
+  rw [hc] at c2 rl' rr'
+  rcases hashInts_eq_cases (c1.symm.trans c2) with heq | hev | hev
+  · simp only [List.cons.injEq, and_true] at heq
+    obtain ⟨rfl, rfl⟩ := heq
+    have k1 := grp_cancel (rl.unit_eq rl')
+    have k2 := grp_cancel (rr.unit_eq rr')
+    by_cases h1 : π.d - π'.d ≠ 0 ∨ π.d1 - π'.d1 ≠ 0
+    · exact Or.inr (Or.inl (repCollision_of_rel hA hn hg1 hh1 h1 k1))
+    by_cases h2 : π.d - π'.d ≠ 0 ∨ π.d2 - π'.d2 ≠ 0
+    · exact Or.inr (Or.inr (Or.inl (repCollision_of_rel hA hn hg2 hh2 h2 k2)))
+    left
+    obtain ⟨c, d, d1, d2⟩ := π
+    obtain ⟨c', d', d1', d2'⟩ := π'
+    simp only at h1 h2 hc
+    have : d' = d := by omega
+    have : d1' = d1 := by omega
+    have : d2' = d2 := by omega
+    subst_vars; rfl
+  · exact Or.inr (Or.inr (Or.inr (Or.inl hev)))
+  · exact Or.inr (Or.inr (Or.inr (Or.inr hev)))
+
 end Zk.ClRange
